@@ -15,7 +15,7 @@ func init() {
 			jobs := []Job{{Pkg: "filterlist", Func: "verifC11Vacuity", Vacuity: true}, {Pkg: "filterlist", Func: "verifC11Packing"}}
 			maxN := 4
 			if tier == "thorough" {
-				maxN = 6
+				maxN = 5
 			}
 			for n := 0; n <= maxN; n++ {
 				jobs = append(jobs, Job{Pkg: "filterlist", Func: "verifC11String", Args: []int64{int64(n), 0}})
@@ -28,7 +28,7 @@ func init() {
 			}
 			fileN := 3
 			if tier == "thorough" {
-				fileN = 5
+				fileN = 4
 			}
 			for n := 0; n <= fileN; n++ {
 				for _, bl := range []int64{1, 2, 3} {
@@ -82,7 +82,7 @@ func init() {
 		ContractStubs: "os.File is the engine's file model (content, offset, closed flag; a read may be short); a counterexample that needs a short read cannot be forced natively",
 		Bounds: map[string]string{
 			"quick":    "index packing for all int32 pairs (full width); in-memory list content of 0..4 symbolic bytes over {a, #, space, LF, CR} (lines are classified by a table of the real NewRule results for every line over {a,#,space}, computed natively each run, so counterexamples replay) scanned through the real RuleScanner / bufio.Reader / strings.Reader code and retrieved through the real RetrieveRule, IgnoreCosmetic on and off; CRLF variant; file-backed list vs in-memory list on the same symbolic content of 0..3 bytes with a read buffer of 1..3 bytes and short reads (RetrieveRule at every offset; scanned sequence); storage of 1..3 lists with arbitrary int32 ids (negative, zero, extreme) and an arbitrary offset below 2^31",
-			"thorough": "content up to 6 bytes",
+			"thorough": "content up to 5 bytes (file-backed up to 4)",
 		},
 		Outside:     []string{"rules.NewRule beyond its results on lines over {a,#,space} (exact table) - other lines would be an uninterpreted classification", "the real os.File and operating system (file model: content, offset, closed flag, reads that deliver one byte or everything)", "contents longer than the bound, in particular lines longer than the 4 KiB read buffer", "multi-byte UTF-8 and NUL bytes"},
 		Assumptions: []string{"bufio.Reader and strings.Reader are executed from their real bodies (not stubbed)"},
